@@ -16,8 +16,9 @@ selected keys present in the current or in the committed storage, ascending; eac
 candidate is removed from the current storage and counted; a candidate that is present in the
 committed storage consumes one unit of the limit; processing stops when no unit is left
 (gossamer's documented rule: keys created during the block do not count towards the limit);
-`allDeleted` = every candidate was processed.  Child deletion of a child that exists neither in
-the current nor in the committed storage removes nothing and reports that nothing remains.
+`allDeleted` = every candidate was processed.  Deletion (with or without limit) of a child that
+exists neither in the current nor in the committed storage reports `(0, false)`: gossamer returns
+the error `ErrChildTrieDoesNotExist` there and its own test requires that error.
 Core Lean only.
 -/
 import Gossamer.Model.C08
@@ -81,9 +82,8 @@ def specRead (s : SS) : Op → Out
 
 def specDump (s : SS) : Out :=
   let v := Logical.view Hc s.back
-  let kids := s.back.kids.map (fun e => (Hc e.2, e.2.map (fun x => (x.1, some x.2))))
   .dump (v.map (fun e => (e.1, some e.2)))
-    (kids.mergeSort (fun a b => !(klt b.1 a.1))) (Hm v)
+    (s.back.kids.map (fun e => (e.1, some (e.2.map (fun x => (x.1, some x.2)))))) (Hm v)
 
 def specStep (s : SS) : Op → SS × Out
   | .put k v =>
@@ -104,8 +104,10 @@ def specStep (s : SS) : Op → SS × Out
     (s.setTop (Logical.setKid s.top c r.1), .cnt r.2.1 r.2.2)
   | .kill c => (s.setTop { s.top with kids := KMap.del c s.top.kids }, .ok)
   | .killl c n =>
-    let r := specLimit (kidOf s.top c) (kidOf s.back c) (fun _ => true) n
-    (s.setTop (Logical.setKid s.top c r.1), .cnt r.2.1 r.2.2)
+    if (KMap.find c s.top.kids).isNone && (KMap.find c s.back.kids).isNone then (s, .cnt 0 false)
+    else
+      let r := specLimit (kidOf s.top c) (kidOf s.back c) (fun _ => true) n
+      (s.setTop (Logical.setKid s.top c r.1), .cnt r.2.1 r.2.2)
   | .start => ({ s with stack := s.top :: s.stack }, .ok)
   | .rollback =>
     match s.stack with
